@@ -183,9 +183,23 @@ def r2_r3_r4(ctx, facts, f):
         szt.append((bid, lab))
     ok = bool(szt) and all(not g.exists_path([tnode(g, b)], rets, avoid_nodes=close, avoid_edges=[(b, other(l))]) for (b, l) in szt) and \
         all(g.exists_path([tnode(g, b)], close, avoid_edges=[(b, other(l))]) for (b, l) in szt)
+    # ... and there is no other reason to skip a rotation that was decided: every return that leaves before the file is closed is
+    # either this bail-out or the 'backup limit reached and overwriting is off' stop (R3c)
+    over_e = []
+    for bid, b in g.blocks.items():
+        c = g.term_cond(bid)
+        cs = cmp_sides(c) if c is not None else None
+        if cs and is_call(strip(cs[1], casts=True), r"::max_backup_files$") and \
+                is_call(strip(cs[2], casts=True), r"std::deque<.*>::size$") and is_this_field(call_obj(strip(cs[2], casts=True)), "_created_files"):
+            over_e.append((bid, "T"))
+    early_rets = [r for r in rets if not g.exists_path(close, [r])]
+    unexplained = [r for r in early_rets if g.exists_path([g.entry_node], [r], avoid_edges=over_e) and
+                   g.exists_path([g.entry_node], [r], avoid_edges=[(b, other(l)) for (b, l) in szt])]
+    ok = ok and not unexplained
     ctx.ob("C14.R2g", site + ":empty-file-bail-out", ok,
            "the early return after the sync is taken only when the file is empty (nothing to rotate, e.g. a full disk); a file with "
-           "content always goes on to be closed and rotated", fn=f)
+           "content always goes on to be closed and rotated; no other early return exists besides the backup-limit stop (%d "
+           "unexplained)" % len(unexplained), fn=f)
     ok = bool(ren) and all(g.dominates(close, p) for p in ren + rem) and not g.exists_path(openp, ren + rem)
     ctx.ob("C14.R2c", site + ":rename-only-while-closed", ok,
            "files are renamed / removed only between close_file and open_file", fn=f)
@@ -577,7 +591,10 @@ def recover(ctx, facts, f):
         c = g.term_cond(bid)
         nc = norm_cmp(c) if c is not None else None
         if nc and nc[0] in ("==", "!=") and "0" in (nc[1], nc[2]) and \
-                any(is_call(x, r"basic_string<.*>::(find|rfind|compare)$") and any(is_call(y, r"path::stem$") for a in x["args"] for y in walk(a)) for x in walk(c)):
+                any(is_call(x, r"basic_string<.*>::(find|rfind|compare)$") and any(is_call(y, r"path::stem$") for a in x["args"] for y in walk(a)) and
+                    # the needle is '<stem>.' — with the separator: 'app_audit.1.log' also starts with 'app'
+                    any((y["k"] == "StringLiteral" and y.get("str") == ".") or (y["k"] == "CharacterLiteral" and y.get("val") == 46) for a in x["args"] for y in walk(a))
+                    for x in walk(c)):
             pref.append((bid, "T" if nc[0] == "==" else "F"))
         cc = strip(c) if c is not None else None
         if isnode(cc) and is_call(cc, r"operator(==|!=)") and sum(1 for x in walk(cc) if is_call(x, r"path::extension$")) >= 2:
